@@ -67,7 +67,7 @@ class ProgGen:
   # ---- ingredients --------------------------------------------------------------------------
   def consts_block(self):
     r = self.r
-    for _ in range(r.randint(3, 9)):
+    for _ in range(r.randint(2, 6)):
       n = self.fresh(r.choice(["", "", "_", "K"]))
       k = r.random()
       if k < 0.5:
@@ -241,18 +241,18 @@ class ProgGen:
     self.typevar_block()
     self.consts_block()
     blocks = []
-    for _ in range(r.randint(2, 2 + size)):
+    for _ in range(r.randint(1, 1 + size)):
       blocks.append(self.class_block)
-    for _ in range(r.randint(2, 3 + size)):
+    for _ in range(r.randint(2, 2 + size)):
       blocks.append(self.func_block)
-    for _ in range(r.randint(2, 3 + size)):
+    for _ in range(r.randint(2, 2 + size)):
       blocks.append(self.error_block)
-    for _ in range(r.randint(0, 2)):
+    for _ in range(r.randint(0, 1)):
       blocks.append(self.loop_block)
     r.shuffle(blocks)
     for b in blocks:
       b()
-    if r.random() < 0.5:
+    if r.random() < 0.3:
       self.consts_block()
     return "\n".join(self.lines) + "\n"
 
